@@ -299,12 +299,46 @@ func main() {
 	}
 	wg.Wait()
 
+	// 1b. a shard that died without statistics (fatal error, out of memory, watchdog): re-run the case it
+	// was working on alone; only if the isolated run dies too is it a violation (otherwise inconclusive)
+	var confirmed []violation
+	for k, res := range results {
+		if res.sf != nil {
+			continue
+		}
+		cur := filepath.Join(work, fmt.Sprintf("current-%d.json", plan[k].idx))
+		data, err := os.ReadFile(cur)
+		if err != nil || replay != "" {
+			continue
+		}
+		out := filepath.Join(work, fmt.Sprintf("isolate-%d.json", k))
+		ctx, cancel := context.WithTimeout(context.Background(), 3*time.Minute)
+		c := exec.CommandContext(ctx, plan[k].bin, "-test.run", plan[k].test, "-test.timeout", "0")
+		c.Dir = filepath.Join(root, "h", "props")
+		c.Env = cleanEnv("VERIF_ROOT="+root, "VERIF_TIER="+tier, "VERIF_SHARD=0", "VERIF_NSHARDS=1", "VERIF_SHARD_SEED=1", "VERIF_OUT="+out, "VERIF_REPLAY="+cur, "VERIF_WORK="+work)
+		logb, _ := c.CombinedOutput()
+		cancel()
+		var sf shardFile
+		if d2, e := os.ReadFile(out); e == nil && json.Unmarshal(d2, &sf) == nil && sf.Completed {
+			continue // not reproducible in isolation
+		}
+		tail := string(logb)
+		if len(tail) > 1500 {
+			tail = tail[:700] + "\n...\n" + tail[len(tail)-700:]
+		}
+		confirmed = append(confirmed, violation{Msg: "the worker process died or hung while building this case, and again when the case was run alone:\n" + tail, Sig: "worker-death", Replay: data})
+	}
+
 	// 2. merge
 	merged := shardFile{Classes: map[string]int64{}, KnownHits: map[string]int64{}, KnownLines: map[string]bool{}, Extra: map[string]any{}}
 	distinct := map[uint64]struct{}{}
 	infra := []string{}
 	allExhaustive := true
+	merged.Violations = append(merged.Violations, confirmed...)
 	for k, res := range results {
+		if res.sf == nil && len(confirmed) > 0 {
+			continue
+		}
 		if res.sf == nil {
 			infra = append(infra, fmt.Sprintf("shard %d wrote no statistics (err=%v timedOut=%v log=%s)", k, res.err, res.timedOut, res.log))
 			continue
